@@ -236,6 +236,21 @@ def derived(ctx, db, B, r, n):
             except Exception as e:
                 ctx.count("power of a derived amount raised %s" % type(e).__name__)
                 power = 1
+        if how == "Array" and i % 2 == 0:
+            # ... and after a row of plain numbers is divided by the whole amount (both divisions): every exponent changes its sign
+            try:
+                import numpy as _np
+
+                if len(o.GetValues()) == 2:
+                    o = (_np.array([9.0, 7.0]) // o) if i % 4 == 0 else (_np.array([9.0, 7.0]) / o)
+                    if not hasattr(o, "GetQuantity"):
+                        ctx.violation("derived:numbers-over-an-array-lost-the-unit", dict(case, result=repr(o)[:120]), replay=case)
+                        continue
+                    q = o.GetQuantity()
+                    power = -1
+                    case = dict(case, numbers_divided_by_it="//" if i % 4 == 0 else "/")
+            except Exception as e:
+                ctx.count("numbers over a derived array raised %s" % type(e).__name__)
         ctx.ev()
         want_c = expected_categories(factors, how, power)
         got_c = {c: e for c, (_u, e) in q.GetCategoryToUnitAndExps().items() if e}
